@@ -140,6 +140,9 @@ def work(args):
                         if any(q):
                             return q
                 a, b = mk(), mk()
+                if R.random() < 0.35:       # exactly parallel / anti-parallel pairs: the cosine rounds to ±1 ± ulp
+                    kk = F(R.choice([-1, -2, -3, 2, 5, -7])) if tn == 'int' else R.choice([F(-1), F(-1, 2), F(-3), F(2), F(7, 2), F(-21)])
+                    b = [kk * x for x in a]
                 va, vb = Vector(*[conv(tn, x) for x in a]), Vector(*[conv(tn, x) for x in b])
                 nrm = va.normalized()
                 rec.update(tn=tn, a=a, b=b, length=float(va.length()), nlen=float(nrm.length()), ncomp=[float(x) for x in nrm], unit=[float(x) for x in va.unit()],
